@@ -239,28 +239,9 @@ Proof.
   (* the replacement loop writes only to the local objects of to_copy, which were absent or null *)
   assert (Hfold : forall l0 ds reg e,
             (forall og, In og l0 -> In og more) -> pg_lookup ds j = Some cell ->
-            pg_lookup (fst (fst (fold_left (fun '(ds, reg, e) og =>
-               match e with
-               | Some _ => (ds, reg, e)
-               | None =>
-                 match pg_omap_find (c_omap c) og with
-                 | None => (ds, reg, Some PeUnm)
-                 | Some l =>
-                   match pg_lookup (pd_store (c_src c)) og with
-                   | Some (PcStream d data _) =>
-                       let d0 := match pg_lookup ds l with Some (PcStream d0 _ _) => d0 | _ => [] end in
-                       (pg_supd ds l (PcStream (fold_left (fun acc kv => pg_dset acc (fst kv) (snd kv)) (pg_rename_dict (pd_store (c_src c)) (c_omap c) d) d0) [] l),
-                        match pg_stream_data (c_src c) og with Some x => pg_reg_set reg l x | None => reg end, None)
-                   | Some (PcObj v) =>
-                       if pg_is_null ds (PvRef l)
-                       then (pg_supd ds l (PcObj (pg_rename (pd_store (c_src c)) (c_omap c) v)), reg, None)
-                       else (ds, reg, Some PeLogic)
-                   | None => (ds, reg, Some PeUnm)
-                   end
-                 end
-               end) l0 (ds, reg, e)))) j = Some cell).
+            pg_lookup (fst (fst (fold_left (pg_replace_step (c_src c) (c_omap c)) l0 (ds, reg, e)))) j = Some cell).
   { induction l0 as [|og t IH]; intros ds reg e Hin Hds; [exact Hds|].
-    cbn [fold_left]. destruct e; [apply IH; [intros x Hx; apply Hin; right; exact Hx | exact Hds]|].
+    cbn [fold_left]. unfold pg_replace_step at 2. destruct e; [apply IH; [intros x Hx; apply Hin; right; exact Hx | exact Hds]|].
     destruct (NN og (Hin og (or_introl eq_refl))) as (l & Hl & Hnull). rewrite Hl.
     assert (l <> j) as Hlj by (intros ->; congruence).
     destruct (pg_lookup (pd_store (c_src c)) og) as [[v|d data k]|].
@@ -276,3 +257,246 @@ Proof.
   destruct (fold_left _ (rev' (c_tocopy c)) (c_dst c, pd_reg dst, None)) as [[ds reg] e]. cbn [fst] in Hfold.
   destruct e; [exact Hfold|]. destruct (pg_omap_find (c_omap c) fid); exact Hfold.
 Qed.
+
+(* ------------------------------------------------------------------ injectivity of the object map, to_copy without duplicates *)
+(* well-formedness of the copier state: mapped local objects exist, the map is injective, everything on to_copy is
+   mapped, to_copy has no duplicates *)
+Definition pg_cW (c : pg_cst) : Prop :=
+  (forall og l, pg_omap_find (c_omap c) og = Some l -> pg_lookup (c_dst c) l <> None) /\
+  (forall og og' l, pg_omap_find (c_omap c) og = Some l -> pg_omap_find (c_omap c) og' = Some l -> og = og') /\
+  (forall og, In og (c_tocopy c) -> pg_omap_find (c_omap c) og <> None) /\
+  NoDup (c_tocopy c).
+
+Lemma pg_cW_eq : forall c c', c_dst c' = c_dst c -> c_omap c' = c_omap c -> c_tocopy c' = c_tocopy c -> pg_cW c -> pg_cW c'.
+Proof. intros c c' Hd Ho Ht (A & B & C & D). unfold pg_cW. rewrite Hd, Ho, Ht. repeat split; assumption. Qed.
+
+Lemma pg_type_is_fields : forall c h t,
+  c_dst (fst (pg_src_type_is c h t)) = c_dst c /\ c_omap (fst (pg_src_type_is c h t)) = c_omap c /\
+  c_tocopy (fst (pg_src_type_is c h t)) = c_tocopy c /\ c_visiting (fst (pg_src_type_is c h t)) = c_visiting c.
+Proof.
+  intros c h t. unfold pg_src_type_is. destruct h; try (repeat split; reflexivity).
+  destruct (pg_all (c_src c)) as [src e]. destruct e; repeat split; reflexivity.
+Qed.
+
+Lemma pg_cW_type_is : forall c h t, pg_cW c -> pg_cW (fst (pg_src_type_is c h t)).
+Proof. intros c h t H. destruct (pg_type_is_fields c h t) as (A & B & C & _). eapply pg_cW_eq; eauto. Qed.
+
+Lemma pg_cW_head : forall h top c, pg_cW c -> (top = true -> c_tocopy c = []) -> pg_cW (fst (pg_reserve_head h top c)).
+Proof.
+  intros h top c W Htop. unfold pg_reserve_head. destruct h as [| | |og| |]; try exact W.
+  destruct (pg_memN og (c_visiting c)); [exact W|].
+  cbn [c_omap c_src c_dst c_visiting c_tocopy c_err].
+  destruct (pg_omap_find (c_omap c) og) as [l|] eqn:Eo.
+  - set (c1 := mkPgCst (c_src c) (c_dst c) (c_omap c) (og :: c_visiting c) (c_tocopy c) (c_err c)).
+    assert (W1 : pg_cW c1) by (eapply pg_cW_eq; [| | |exact W]; reflexivity).
+    destruct top.
+    + pose proof (pg_cW_type_is c1 (PvRef og) k_Page W1) as W2.
+      destruct (pg_type_is_fields c1 (PvRef og) k_Page) as (F1 & F2 & F3 & _).
+      destruct (pg_src_type_is c1 (PvRef og) k_Page) as [c2 isp]. cbn [fst] in *.
+      cbn [andb]. destruct (isp && pg_is_null (c_dst c2) (PvRef l)); cbn [fst].
+      * destruct W2 as (A & B & C & D). unfold pg_cW. cbn [c_dst c_omap c_tocopy].
+        split; [exact A|split; [exact B|split]].
+        -- intros x [<-|Hx]; [rewrite F2; cbn [c1 c_omap]; congruence | apply C, Hx].
+        -- rewrite F3. cbn [c1 c_tocopy]. rewrite (Htop eq_refl). constructor; [intros []|constructor].
+      * eapply pg_cW_eq; [| | |exact W2]; reflexivity.
+    + cbn [andb fst]. eapply pg_cW_eq; [| | |exact W1]; reflexivity.
+  - set (cell := if pg_is_stream (pd_store (c_src c)) (PvRef og) then PcStream [] [] 0 else PcObj PvNull).
+    assert ((if pg_is_stream (pd_store (c_src c)) (PvRef og) then pg_alloc (c_dst c) (PcStream [] [] 0) else pg_alloc (c_dst c) (PcObj PvNull))
+            = pg_alloc (c_dst c) cell) as -> by (unfold cell; destruct (pg_is_stream _ _); reflexivity).
+    set (ni := pg_next_id (c_dst c)).
+    change (pg_alloc (c_dst c) cell) with ((ni, cell) :: c_dst c, ni). cbv iota beta.
+    assert (Hfresh : pg_lookup (c_dst c) ni = None) by apply pg_next_id_fresh.
+    destruct W as (A & B & C & D).
+    assert (Hnot : ~ In og (c_tocopy c)) by (intros H; apply C in H; congruence).
+    (* the state after the reservation, with or without og on to_copy *)
+    assert (Wgen : forall vis tc e src, (tc = c_tocopy c \/ tc = og :: c_tocopy c) ->
+              pg_cW (mkPgCst src ((ni, cell) :: c_dst c) ((og, ni) :: c_omap c) vis tc e)).
+    { intros vis tc e src Htc. unfold pg_cW. cbn [c_dst c_omap c_tocopy].
+      split; [|split; [|split]].
+      - intros x l H. rewrite pg_omap_find_cons in H. cbn [pg_lookup]. destruct (x =? og) eqn:E.
+        + inversion H; subst. rewrite N.eqb_refl. discriminate.
+        + destruct (l =? ni); [discriminate|]. eapply A, H.
+      - intros x y l Hx Hy. rewrite pg_omap_find_cons in Hx, Hy.
+        destruct (x =? og) eqn:Ex; destruct (y =? og) eqn:Ey.
+        + apply N.eqb_eq in Ex, Ey. congruence.
+        + inversion Hx; subst. apply A in Hy. congruence.
+        + inversion Hy; subst. apply A in Hx. congruence.
+        + eapply B; eassumption.
+      - intros x Hx. rewrite pg_omap_find_cons. destruct (x =? og) eqn:E; [discriminate|].
+        destruct Htc as [->| ->]; [apply C, Hx|]. destruct Hx as [<-|Hx]; [rewrite N.eqb_refl in E; discriminate | apply C, Hx].
+      - destruct Htc as [->| ->]; [exact D|constructor; assumption]. }
+    destruct top.
+    + cbn [negb andb fst]. apply Wgen. right. reflexivity.
+    + set (c1 := mkPgCst (c_src c) ((ni, cell) :: c_dst c) ((og, ni) :: c_omap c) (og :: c_visiting c) (c_tocopy c) (c_err c)).
+      assert (W1 : pg_cW c1) by (apply Wgen; left; reflexivity).
+      pose proof (pg_cW_type_is c1 (PvRef og) k_Page W1) as W2.
+      destruct (pg_type_is_fields c1 (PvRef og) k_Page) as (F1 & F2 & F3 & _).
+      destruct (pg_src_type_is c1 (PvRef og) k_Page) as [c2 isp]. cbn [fst] in *.
+      cbn [negb andb]. destruct isp; cbn [fst].
+      * eapply pg_cW_eq; [| | |exact W2]; reflexivity.
+      * destruct c2 as [s2 d2 o2 v2 t2 e2]. cbn [c_dst c_omap c_tocopy c_src c_visiting c_err] in *. subst d2 o2 t2.
+        apply Wgen. right. reflexivity.
+Qed.
+
+Lemma pg_cW_fold : forall {A} (f : pg_cst -> A -> pg_cst) (l : list A) c,
+  (forall c x, pg_cW c -> pg_cW (f c x)) -> pg_cW c -> pg_cW (fold_left f l c).
+Proof.
+  intros A f l. induction l as [|x t IH]; intros c H W; simpl; [exact W|]. apply IH; [exact H|apply H, W].
+Qed.
+
+Lemma pg_cW_kids : forall rec h c, (forall x c, pg_cW c -> pg_cW (rec x c)) -> pg_cW c -> pg_cW (pg_reserve_kids rec h c).
+Proof.
+  intros rec h c Hrec W. unfold pg_reserve_kids.
+  assert (Hd : forall d c0, pg_cW c0 -> pg_cW (fold_left (fun c1 (kv : pg_key * pg_val) => if pg_is_null (pd_store (c_src c1)) (snd kv) then c1 else rec (snd kv) c1) d c0)).
+  { intros d c0. apply pg_cW_fold. intros c1 kv W1. destruct (pg_is_null _ _); [exact W1 | apply Hrec, W1]. }
+  assert (Ha : forall l c0, pg_cW c0 -> pg_cW (fold_left (fun c1 x => rec x c1) l c0)).
+  { intros l c0. apply pg_cW_fold. intros c1 x W1. apply Hrec, W1. }
+  destruct h as [| | |og|l|d]; try exact W; [|apply Ha, W|apply Hd, W].
+  destruct (pg_lookup (pd_store (c_src c)) og) as [[v|d x k]|]; try exact W; [|apply Hd, W].
+  destruct v; try exact W; [apply Ha, W|apply Hd, W].
+Qed.
+
+Local Transparent pg_reserve.
+Lemma pg_cW_reserve : forall fuel h top c, pg_cW c -> (top = true -> c_tocopy c = []) -> pg_cW (pg_reserve fuel h top c).
+Proof.
+  induction fuel as [|f IH]; intros h top c W Htop; cbn [pg_reserve].
+  - eapply pg_cW_eq; [| | |exact W]; reflexivity.
+  - destruct (c_err c); [exact W|].
+    pose proof (pg_cW_type_is c h k_Pages W) as W1.
+    destruct (pg_type_is_fields c h k_Pages) as (_ & _ & F3 & _).
+    destruct (pg_src_type_is c h k_Pages) as [c1 isp]. cbn [fst] in *.
+    destruct (c_err c1); [exact W1|]. destruct isp; [exact W1|].
+    assert (Htop1 : top = true -> c_tocopy c1 = []) by (intros H; rewrite F3; apply Htop, H).
+    pose proof (pg_cW_head h top c1 W1 Htop1) as W2.
+    destruct (pg_reserve_head h top c1) as [c2 go]. cbn [fst] in W2.
+    destruct (c_err c2); [exact W2|]. destruct go; cbn [negb]; [|exact W2].
+    assert (Hrec : forall x c0, pg_cW c0 -> pg_cW (pg_reserve f x false c0)).
+    { intros x c0 W0. apply IH; [exact W0|discriminate]. }
+    pose proof (pg_cW_kids (fun x c0 => pg_reserve f x false c0) h c2 Hrec W2) as W3.
+    destruct (c_err (pg_reserve_kids (fun x c0 => pg_reserve f x false c0) h c2)); [exact W3|].
+    unfold pg_reserve_done. destruct h; exact W3.
+Qed.
+Local Opaque pg_reserve.
+
+(* ------------------------------------------------------------------ the replacement phase *)
+Lemma pg_replace_step_err : forall src omap l ds reg x,
+  fold_left (pg_replace_step src omap) l (ds, reg, Some x) = (ds, reg, Some x).
+Proof. induction l as [|og t IH]; intros; [reflexivity|]. cbn [fold_left pg_replace_step]. apply IH. Qed.
+
+(* the replacement loop: every object on the list ends up as the renamed source value, everything that is not the
+   image of a listed object is left alone *)
+Lemma pg_replace_fold : forall src omap L ds reg ds' reg',
+  NoDup L -> (forall og, In og L -> pg_omap_find omap og <> None) ->
+  (forall og og' l, pg_omap_find omap og = Some l -> pg_omap_find omap og' = Some l -> og = og') ->
+  fold_left (pg_replace_step src omap) L (ds, reg, None) = (ds', reg', None) ->
+  (forall og l v, In og L -> pg_omap_find omap og = Some l -> pg_lookup (pd_store src) og = Some (PcObj v) ->
+     pg_lookup ds' l = Some (PcObj (pg_rename (pd_store src) omap v))) /\
+  (forall j, (forall og, In og L -> pg_omap_find omap og <> Some j) -> pg_lookup ds' j = pg_lookup ds j).
+Proof.
+  intros src omap L. induction L as [|og t IH]; intros ds reg ds' reg' Hnd Hmap Hinj Hfold.
+  - cbn in Hfold. inversion Hfold; subst. split; [intros og l v []|reflexivity].
+  - inversion Hnd as [|? ? Hnot Hnd']; subst.
+    cbn [fold_left] in Hfold. unfold pg_replace_step at 2 in Hfold.
+    destruct (pg_omap_find omap og) as [l|] eqn:El; [|rewrite pg_replace_step_err in Hfold; inversion Hfold].
+    assert (Hother : forall og', In og' t -> pg_omap_find omap og' <> Some l).
+    { intros og' Hin E. assert (og = og') by (eapply Hinj; eassumption). subst. contradiction. }
+    destruct (pg_lookup (pd_store src) og) as [[v|d data k]|] eqn:Es.
+    + destruct (pg_is_null ds (PvRef l)); [|rewrite pg_replace_step_err in Hfold; inversion Hfold].
+      destruct (IH _ _ _ _ Hnd' (fun x Hx => Hmap x (or_intror Hx)) Hinj Hfold) as [H1 H2]. split.
+      * intros og' l' v' [<-|Hin] Hl' Hv'.
+        -- rewrite El in Hl'. inversion Hl'; subst l'. rewrite Es in Hv'. inversion Hv'; subst v'.
+           rewrite H2 by exact Hother. rewrite pg_lookup_supd, N.eqb_refl. reflexivity.
+        -- eapply H1; eassumption.
+      * intros j Hj. rewrite H2 by (intros x Hx; apply Hj; right; exact Hx).
+        rewrite pg_lookup_supd. destruct (j =? l) eqn:E; [|reflexivity].
+        apply N.eqb_eq in E. subst j. exfalso. apply (Hj og (or_introl eq_refl)). exact El.
+    + destruct (IH _ _ _ _ Hnd' (fun x Hx => Hmap x (or_intror Hx)) Hinj Hfold) as [H1 H2]. split.
+      * intros og' l' v' [<-|Hin] Hl' Hv'; [rewrite Es in Hv'; discriminate | eapply H1; eassumption].
+      * intros j Hj. rewrite H2 by (intros x Hx; apply Hj; right; exact Hx).
+        rewrite pg_lookup_supd. destruct (j =? l) eqn:E; [|reflexivity].
+        apply N.eqb_eq in E. subst j. exfalso. apply (Hj og (or_introl eq_refl)). exact El.
+    + rewrite pg_replace_step_err in Hfold. inversion Hfold.
+Qed.
+
+(* the copier state a document starts a copy with is well formed when every mapped local object exists and the map is
+   injective (true for the empty map, and kept by every copy: pg_cW_reserve) *)
+Definition pg_omap_wf (dst : pg_doc) : Prop :=
+  (forall og l, pg_omap_find (pd_omap dst) og = Some l -> pg_lookup (pd_store dst) l <> None) /\
+  (forall og og' l, pg_omap_find (pd_omap dst) og = Some l -> pg_omap_find (pd_omap dst) og' = Some l -> og = og').
+
+(* FULL STATEMENT (DESIGN C13 copy_iso): the objects reachable from the copy are isomorphic, as a graph, to the objects
+   reachable from the source object when the walk stops at /Pages nodes and at pages other than the copied one, sharing
+   and cycles included.
+   PROVED HERE (partial): the local form of that isomorphism.  The object map is an injective function (so two
+   references are equal after the copy iff they were equal before: sharing and cycles are kept), and every object the
+   reservation walk put on to_copy is, after a successful copy, exactly the source value with every reference replaced
+   by its image under that map (pg_rename: references to objects that were not reserved - /Pages nodes - become null,
+   null-valued dictionary keys are dropped).
+   MISSING: that to_copy is exactly the set of objects reachable from the source object without crossing a page
+   boundary (closure of the reservation walk under the fuel bound).  That part is checked on every explored copy by the
+   isomorphism oracle of harness/c13.py. *)
+Lemma copy_iso_partial_lemma : forall src dst fid,
+  pg_omap_wf dst ->
+  let c := pg_cres src dst fid in
+  let '(src', dst', e, r) := pg_copied src dst fid in
+  e = None ->
+  (forall og og' l, pg_omap_find (pd_omap dst') og = Some l -> pg_omap_find (pd_omap dst') og' = Some l -> og = og') /\
+  (forall og l v, In og (c_tocopy c) -> pg_omap_find (pd_omap dst') og = Some l ->
+     pg_lookup (pd_store src') og = Some (PcObj v) ->
+     pg_lookup (pd_store dst') l = Some (PcObj (pg_rename (pd_store src') (pd_omap dst') v))).
+Proof.
+  intros src dst fid [Wex Winj] c.
+  assert (W : pg_cW c).
+  { apply pg_cW_reserve; [|reflexivity]. unfold pg_cW, pg_c0. cbn [c_dst c_omap c_tocopy].
+    split; [exact Wex|split; [exact Winj|split; [intros og []|constructor]]]. }
+  destruct W as (A & B & C & D).
+  unfold pg_copied. fold (pg_c0 src dst). fold (pg_cres src dst fid). fold c.
+  destruct (c_err c); [intros H; discriminate|].
+  destruct (fold_left (pg_replace_step (c_src c) (c_omap c)) (rev' (c_tocopy c)) (c_dst c, pd_reg dst, None)) as [[ds reg] e] eqn:Ef.
+  destruct e as [x|].
+  - intros H. discriminate.
+  - assert (Hres : forall l0 : nat, (forall og og' l, pg_omap_find (c_omap c) og = Some l -> pg_omap_find (c_omap c) og' = Some l -> og = og') /\
+       (forall og l v, In og (c_tocopy c) -> pg_omap_find (c_omap c) og = Some l -> pg_lookup (pd_store (c_src c)) og = Some (PcObj v) ->
+          pg_lookup ds l = Some (PcObj (pg_rename (pd_store (c_src c)) (c_omap c) v)))).
+    { intros _. split; [exact B|].
+      destruct (pg_replace_fold (c_src c) (c_omap c) (rev' (c_tocopy c)) (c_dst c) (pd_reg dst) ds reg) as [H1 _].
+      - rewrite rev'_rev. apply NoDup_rev, D.
+      - intros og H. rewrite rev'_rev in H. apply in_rev in H. apply C, H.
+      - exact B.
+      - exact Ef.
+      - intros og l v Hin. apply H1. rewrite rev'_rev. apply in_rev. rewrite rev_involutive. exact Hin. }
+    destruct (pg_omap_find (c_omap c) fid); intros _; exact (Hres O).
+Qed.
+
+Lemma pg_replace_fold_some : forall src omap L st j,
+  pg_lookup (fst (fst st)) j <> None -> pg_lookup (fst (fst (fold_left (pg_replace_step src omap) L st))) j <> None.
+Proof.
+  intros src omap L. induction L as [|og t IH]; intros [[ds reg] e] j H; [exact H|].
+  cbn [fold_left]. apply IH. unfold pg_replace_step. cbn [fst] in *.
+  destruct e; [exact H|]. destruct (pg_omap_find omap og) as [l|]; [|exact H].
+  destruct (pg_lookup (pd_store src) og) as [[v|d data k]|]; cbn [fst]; try exact H.
+  - destruct (pg_is_null ds (PvRef l)); cbn [fst]; [|exact H]. rewrite pg_lookup_supd. destruct (j =? l); [discriminate|exact H].
+  - rewrite pg_lookup_supd. destruct (j =? l); [discriminate|exact H].
+Qed.
+
+(* the hypothesis of copy_iso_partial is an invariant of copying (it holds for the empty map of a fresh document) *)
+Lemma copy_omap_wf_lemma : forall src dst fid,
+  pg_omap_wf dst -> pg_omap_wf (snd (fst (fst (pg_copied src dst fid)))).
+Proof.
+  intros src dst fid [Wex Winj].
+  assert (W : pg_cW (pg_cres src dst fid)).
+  { apply pg_cW_reserve; [|reflexivity]. unfold pg_cW, pg_c0. cbn [c_dst c_omap c_tocopy].
+    split; [exact Wex|split; [exact Winj|split; [intros og []|constructor]]]. }
+  destruct W as (A & B & _ & _).
+  unfold pg_copied. fold (pg_c0 src dst). fold (pg_cres src dst fid). set (c := pg_cres src dst fid) in *.
+  destruct (c_err c); [split; cbn; assumption|].
+  pose proof (pg_replace_fold_some (c_src c) (c_omap c) (rev' (c_tocopy c)) (c_dst c, pd_reg dst, None)) as Hs.
+  destruct (fold_left (pg_replace_step (c_src c) (c_omap c)) (rev' (c_tocopy c)) (c_dst c, pd_reg dst, None)) as [[ds reg] e].
+  cbn [fst] in Hs.
+  assert (pg_omap_wf (pd_with_reg (pd_with_omap (pd_with_store dst ds) (c_omap c)) reg)) as Hw.
+  { split; cbn; [|exact B]. intros og l H. apply Hs, (A og l H). }
+  destruct e; [exact Hw|]. destruct (pg_omap_find (c_omap c) fid); exact Hw.
+Qed.
+
+Lemma pg_omap_wf_init : forall s r, pg_omap_wf (pg_init_doc s r).
+Proof. intros. split; cbn; intros; discriminate. Qed.
